@@ -116,6 +116,11 @@ fn jobs_base() -> Vec<(Op, Vec<Vec<f64>>)> {
         pts.push(vec![0.75 * sy, 2.0 * sx]);
         pts.push(vec![2.0 * sy, 0.75 * sx]);
     }
+    // the four half-axes (regular points of atan2; the negative y axis is where a branch test without abs() fails)
+    pts.push(vec![1.5, 0.0]);
+    pts.push(vec![-1.5, 0.0]);
+    pts.push(vec![0.0, 1.25]);
+    pts.push(vec![0.0, -1.25]);
     v.push((Op::Atan2, pts));
     v.push((Op::AbsSub, vec![vec![2.0, -0.625], vec![-0.625, 2.0], vec![-1.0, -2.5], vec![0.75, 0.75]]));
     v
